@@ -47,6 +47,23 @@ func (m *MonC02) OnReq(w *World, r *Req) {
 	if owner == nil {
 		return
 	}
+	// controller-moved: a write may make the writing owner the controller (adoption) or release
+	// control; it never hands the object to somebody else
+	{
+		was := map[string]bool{}
+		for _, c := range Controllers(r.Before, strategy) {
+			was[c.UID] = true
+		}
+		for _, c := range Controllers(r.After, strategy) {
+			if was[c.UID] || c.Is(owner) {
+				continue
+			}
+			m.touch()
+			w.Report(Violation{Property: "C02", Rule: "controller-moved", Sig: shortSite(r.Site) + "/" + staleTag(p, r), Seq: r.Seq,
+				Msg: fmt.Sprintf("pass %d of %s %s wrote %s and thereby made %s/%s its controller (controllers before: %v); only the adopting revision may become controller", p.ID, p.Ctrl, p.Key, r.Key(), c.Kind, c.Name, Controllers(r.Before, strategy))})
+			return
+		}
+	}
 	rb, okb := RecordedRevision(r.Before)
 	ra, oka := RecordedRevision(r.After)
 	if okb && oka && ra < rb {
